@@ -788,3 +788,32 @@ Qed.
 Lemma duplicate_parent_hangs :
   fst (run_selection_pool {| code := fun _ => 0%Z; dur := fun _ => 1%nat |} 2 [] [0; 0]%nat []) = PHang.
 Proof. vm_compute. reflexivity. Qed.
+
+(* C04: when no worker fails, every schedule (world, bound) ends cleanly with the same set of
+   parents started and completed -- output_dict has an entry for exactly the parents of
+   parent_list, whatever the completion order *)
+Theorem selection_schedule_independent :
+  forall (W1 W2 : world) (n1 n2 : nat) (behemoths smaller leafless : list nat),
+  (1 <= n1)%nat -> (1 <= n2)%nat -> NoDup (behemoths ++ smaller) ->
+  (forall p, In p (behemoths ++ smaller) -> mem p leafless = false -> code W1 p = 0%Z) ->
+  (forall p, In p (behemoths ++ smaller) -> mem p leafless = false -> code W2 p = 0%Z) ->
+  let r1 := run_selection_pool W1 n1 behemoths smaller leafless in
+  let r2 := run_selection_pool W2 n2 behemoths smaller leafless in
+  fst r1 = POk /\ fst r2 = POk /\
+  Permutation (ss_completed (snd r1)) (behemoths ++ smaller) /\
+  Permutation (ss_completed (snd r1)) (ss_completed (snd r2)).
+Proof.
+  intros W1 W2 n1 n2 beh sml leafless Hn1 Hn2 Hnd Hc1 Hc2 r1 r2.
+  assert (Hclean : forall W n, (1 <= n)%nat ->
+            (forall p, In p (beh ++ sml) -> mem p leafless = false -> code W p = 0%Z) ->
+            fst (run_selection_pool W n beh sml leafless) = POk).
+  { intros W n Hn Hc. destruct (selection_scheduler W n beh sml leafless Hn Hnd) as (H1 & _ & H3 & _).
+    destruct (fst (run_selection_pool W n beh sml leafless)) as [|w c|] eqn:E; [reflexivity | | contradiction].
+    exfalso. destruct (H3 w c eq_refl) as (Hw & Hl & Hcw & Hnz). apply Hnz. rewrite Hcw. apply Hc; assumption. }
+  pose proof (Hclean W1 n1 Hn1 Hc1) as E1. pose proof (Hclean W2 n2 Hn2 Hc2) as E2.
+  destruct (selection_scheduler W1 n1 beh sml leafless Hn1 Hnd) as (_ & A1 & _).
+  destruct (selection_scheduler W2 n2 beh sml leafless Hn2 Hnd) as (_ & A2 & _).
+  destruct (A1 E1) as (_ & B1 & _). destruct (A2 E2) as (_ & B2 & _).
+  split; [exact E1|]. split; [exact E2|]. split; [exact B1|].
+  eapply Permutation_trans; [exact B1 | apply Permutation_sym; exact B2].
+Qed.
